@@ -1186,7 +1186,9 @@ func c10LoadCorpusTrees() []c10Tree {
 	return out
 }
 
-func c10RunOracle(run *Run, rng *Rng, tier string) error {
+// c10StartOracle generates the trees and starts the hang-prone builds in child processes in the
+// background; the returned function waits for them, runs the remaining builds and checks every tree.
+func c10StartOracle(rng *Rng, tier string) func(run *Run) error {
 	n := 150
 	if tier == "thorough" {
 		n = 4000
@@ -1220,19 +1222,23 @@ func c10RunOracle(run *Run, rng *Rng, tier string) error {
 			jl = append(jl, j)
 		}
 	}
-	if err := c10RunJobs(jl, 8, 4*time.Second, 5*time.Second); err != nil {
-		return err
-	}
-	for i, t := range trees {
-		var out, cls, msg string
-		if j, ok := jobs[i]; ok {
-			out, cls, msg = j.resp.Output, j.resp.Cls, j.resp.Msg
-		} else {
-			out, cls, msg = c10Build(t.files())
+	done := make(chan error, 1)
+	go func() { done <- c10RunJobs(jl, 6, 3*time.Second, 4*time.Second) }()
+	return func(run *Run) error {
+		if err := <-done; err != nil {
+			return err
 		}
-		c10CheckTree(run, t, out, cls, msg)
+		for i, t := range trees {
+			var out, cls, msg string
+			if j, ok := jobs[i]; ok {
+				out, cls, msg = j.resp.Output, j.resp.Cls, j.resp.Msg
+			} else {
+				out, cls, msg = c10Build(t.files())
+			}
+			c10CheckTree(run, t, out, cls, msg)
+		}
+		return nil
 	}
-	return nil
 }
 
 func replayC10(path string) (bool, string, error) {
